@@ -240,6 +240,12 @@ impl Scenario for C10 {
                 spec.pre = rng.below(5) as u32;
                 // aux: [blocks in lock-step, advance one side by k generates before comparing]
                 spec.aux = vec![rng.range(1, 4), if rng.chance(1, 2) { 0 } else { rng.range(1, 70) }];
+                if rng.chance(1, 2) {
+                    // clone_from into an unrelated core; same age as the source half of the time
+                    spec.aux.push(1);
+                    spec.aux.push(if rng.chance(1, 2) { spec.pre as u64 } else { rng.below(5) });
+                    spec.seed2 = Some(gen_seed(rng, ck.rng_kind()));
+                }
             }
             _ => {
                 spec.variant = "isaac_array".into();
@@ -267,7 +273,7 @@ impl Scenario for C10 {
     }
 
     fn rule(&self) -> String {
-        "Each run is one of: (clone) a C05-style prefix history on one of the 19 deterministic types, so that forks happen mid-block and with a half pending, then clone(), `fork == original` where == exists, then a suffix of next_u32/next_u64/fill_bytes/jump/long_jump applied to both in lock-step (identical results, still equal after every op, 2-block drain); (the clone is made with clone() or, in a third of the runs, with clone_from() into an unrelated generator of the same type that is already in use); (two_seeds) two generators or cores built from DIFFERENT, often near-equal (one flipped bit) seeds through any route, compared fresh or after the same public history: if == says equal their futures must be identical; (skew) the converse: after the fork the two sides are advanced by different call shapes (one next_u32, d words inside the block, one whole block, next_u64 vs two next_u32, fill(8) vs two fill(4), random), then `a == b` is evaluated: if it says equal both must have identical futures under the probe suffix, and two Hc128Rng at different read positions of the same block must compare unequal; (bitflip) one bit of the stored bincode image of a non-buffered generator or of IsaacCore/Isaac64Core is flipped (anywhere, or in the trailing scalar fields a/b/c) and the image deserialised: if original == flipped their futures must be identical; (core) Hc128Core/IsaacCore/Isaac64Core: clone == original, identical generate() blocks in lock-step, and cores compared after one side ran k extra generate() calls; (isaac_array) two result buffers differing in exactly one element must be unequal, equal contents equal. distinct_nontrivial = distinct (type, fork buffer index, half flag, pair-construction kind, == verdict) signatures.".into()
+        "Each run is one of: (clone) a C05-style prefix history on one of the 19 deterministic types, so that forks happen mid-block and with a half pending, then clone(), `fork == original` where == exists, then a suffix of next_u32/next_u64/fill_bytes/jump/long_jump applied to both in lock-step (identical results, still equal after every op, 2-block drain); (the clone is made with clone() or, in a third of the runs, with clone_from() into an unrelated generator of the same type that is already in use); (two_seeds) two generators or cores built from DIFFERENT, often near-equal (one flipped bit) seeds through any route, compared fresh or after the same public history: if == says equal their futures must be identical; (skew) the converse: after the fork the two sides are advanced by different call shapes (one next_u32, d words inside the block, one whole block, next_u64 vs two next_u32, fill(8) vs two fill(4), random), then `a == b` is evaluated: if it says equal both must have identical futures under the probe suffix, and two Hc128Rng at different read positions of the same block must compare unequal; (bitflip) one bit of the stored bincode image of a non-buffered generator or of IsaacCore/Isaac64Core is flipped (anywhere, or in the trailing scalar fields a/b/c) and the image deserialised: if original == flipped their futures must be identical; (core) Hc128Core/IsaacCore/Isaac64Core: clone (made with clone(), or with clone_from() into an unrelated core of the same or another age) == original, identical generate() blocks in lock-step, and cores compared after one side ran k extra generate() calls; (isaac_array) two result buffers differing in exactly one element must be unequal, equal contents equal. distinct_nontrivial = distinct (type, fork buffer index, half flag, pair-construction kind, == verdict) signatures.".into()
     }
     fn assumptions(&self) -> Vec<String> {
         vec![
@@ -292,6 +298,7 @@ impl Scenario for C10 {
             "probe:clone_from_into_used_generator",
             "probe:two_seeds_eq_false",
             "probe:two_seeds_fresh_compared",
+            "probe:core_clone_from",
         ]
     }
 }
@@ -545,9 +552,26 @@ impl C10 {
         for _ in 0..spec.pre {
             sut(guard(|| a.generate()), "generate")?;
         }
-        let mut b = sut(guard(|| a.boxed_clone()), "clone")?;
+        // aux[2] = 1: the clone is made with Clone::clone_from into an unrelated core (other seed)
+        // that has generated aux[3] blocks (often the same number as the source)
+        let mut b = if spec.aux.get(2).copied() == Some(1) && spec.seed2.is_some() {
+            let mut d: Box<dyn DynCore> = match sut(construct_core(ck, spec.seed2.as_ref().unwrap()), "construct")? {
+                CoreConstructed::Ok(c, _) => c,
+                CoreConstructed::Err(..) => return Err(E::End(RunEnd::Discard("source_error".into()))),
+            };
+            for _ in 0..spec.aux.get(3).copied().unwrap_or(0).min(8) {
+                sut(guard(|| d.generate()), "generate")?;
+            }
+            let src = a.as_ref();
+            let dst = d.as_mut();
+            sut(guard(|| dst.clone_from_dyn(src)), "clone_from")?;
+            st.count("probe:core_clone_from");
+            d
+        } else {
+            sut(guard(|| a.boxed_clone()), "clone")?
+        };
         if !sut(guard(|| a.eq_dyn(b.as_ref())), "eq")? {
-            return Err(E::End(viol("C10/clone_not_equal", format!("{}:clone", ck.name()), format!("{}: clone() after {} generate() calls compares unequal to its original", ck.name(), spec.pre))));
+            return Err(E::End(viol("C10/clone_not_equal", format!("{}:clone", ck.name()), format!("{}: clone ({}) after {} generate() calls compares unequal to its original", ck.name(), if spec.aux.get(2).copied() == Some(1) { "made with clone_from into an unrelated core" } else { "made with clone()" }, spec.pre))));
         }
         st.count("probe:core_clone_equal");
         let blocks = spec.aux.first().copied().unwrap_or(1).min(8);
